@@ -7,6 +7,7 @@ package otter
 // spec/LoadHist.tla.
 
 import (
+	"github.com/maypok86/otter/v2/stats"
 	"sync/atomic"
 	"strings"
 	"bufio"
@@ -66,6 +67,8 @@ type ldResult struct {
 	Inflight int        `json:"inflight"`
 	Afresh   int        `json:"afresh"`  // 1 = a Get issued after quiescence on an absent key invoked the loader and returned
 	Hung     int        `json:"hung"`
+	LoaderRuns    int   `json:"loaderruns"`    // loader invocations (single and bulk) until quiescence
+	LoadsRecorded int   `json:"loadsrecorded"` // load successes + failures in the statistics snapshot at that moment
 	Drift    int        `json:"drift"`   // script steps that could not be followed
 	ScriptN  int        `json:"scriptn"`
 	Dropped  []verifkit.Step `json:"dropped"`
@@ -198,6 +201,8 @@ func runLoadScenario(sc ldScenario) ldResult {
 		o.MaximumSize = 0
 		o.OnAtomicDeletion = nil
 	}
+	ctrLd := stats.NewCounter()
+	o.StatsRecorder = ctrLd
 	if sc.Refresh == 1 {
 		o.RefreshCalculator = RefreshWriting[int, int](time.Hour)
 		if sc.Stale == 1 {
@@ -523,6 +528,8 @@ func runLoadScenario(sc ldScenario) ldResult {
 	if g := c.cache.singleflight; g.isInitialized.Load() {
 		res.Inflight = g.calls.Size()
 	}
+	res.LoaderRuns = runs
+	res.LoadsRecorded = int(ctrLd.Snapshot().Loads())
 	mu.Unlock()
 	defer mu.Lock()
 	// a later Get loads afresh
